@@ -51,39 +51,47 @@ func (s *state) Grant(mode int) {
 }
 
 type Mutex struct {
-	st   state
-	real sync.Mutex
+	rw RWMutex
 }
 
 //go:norace
-func (m *Mutex) Lock() {
-	if simrt.LockAcquire(&m.st, 2, "ssync.Mutex.Lock") {
-		UsedLocks++
-	}
-	m.real.Lock()
-}
+func (m *Mutex) Lock() { m.rw.Lock() }
 
 //go:norace
-func (m *Mutex) Unlock() {
-	m.real.Unlock()
-	if simrt.StateLock() {
-		m.st.writer = false
-		simrt.StateUnlock()
-		simrt.LockReleased(&m.st)
-	}
-}
+func (m *Mutex) Unlock() { m.rw.Unlock() }
 
 //go:norace
-func (m *Mutex) TryLock() bool { return m.real.TryLock() }
+func (m *Mutex) TryLock() bool { m.rw.fresh(); return m.rw.real.TryLock() }
 
 type RWMutex struct {
-	st   state
-	real sync.RWMutex
+	st   *state
+	real *sync.RWMutex
+	ep   int64
+	init sync.Mutex
+}
+
+// fresh (re-)initialises the lock the first time it is touched in a simulated run: a lock left
+// held by a goroutine that an aborted earlier run abandoned must not block this run.
+//
+//go:norace
+func (m *RWMutex) fresh() {
+	e := simrt.Epoch()
+	if m.real != nil && m.ep == e {
+		return
+	}
+	m.init.Lock()
+	if m.real == nil || m.ep != e {
+		m.st = &state{}
+		m.real = &sync.RWMutex{}
+		m.ep = e
+	}
+	m.init.Unlock()
 }
 
 //go:norace
 func (m *RWMutex) Lock() {
-	if simrt.LockAcquire(&m.st, 2, "ssync.RWMutex.Lock") {
+	m.fresh()
+	if simrt.LockAcquire(m.st, 2, "ssync.RWMutex.Lock") {
 		UsedLocks++
 	}
 	m.real.Lock()
@@ -91,17 +99,19 @@ func (m *RWMutex) Lock() {
 
 //go:norace
 func (m *RWMutex) Unlock() {
-	m.real.Unlock()
+	st, real := m.st, m.real
+	real.Unlock()
 	if simrt.StateLock() {
-		m.st.writer = false
+		st.writer = false
 		simrt.StateUnlock()
-		simrt.LockReleased(&m.st)
+		simrt.LockReleased(st)
 	}
 }
 
 //go:norace
 func (m *RWMutex) RLock() {
-	if simrt.LockAcquire(&m.st, 1, "ssync.RWMutex.RLock") {
+	m.fresh()
+	if simrt.LockAcquire(m.st, 1, "ssync.RWMutex.RLock") {
 		UsedLocks++
 	}
 	m.real.RLock()
@@ -109,13 +119,14 @@ func (m *RWMutex) RLock() {
 
 //go:norace
 func (m *RWMutex) RUnlock() {
-	m.real.RUnlock()
+	st, real := m.st, m.real
+	real.RUnlock()
 	if simrt.StateLock() {
-		if m.st.readers > 0 {
-			m.st.readers--
+		if st.readers > 0 {
+			st.readers--
 		}
 		simrt.StateUnlock()
-		simrt.LockReleased(&m.st)
+		simrt.LockReleased(st)
 	}
 }
 
